@@ -13,9 +13,10 @@ Model: `RtenVerif.Model.Chunks` (`chunks_with_overlap` of `rten-text/src/split.r
 `chunkRanges n size overlap = none` models the `assert!(overlap < chunk_size)` panic.
 
 What is proved: T1 (limit) and T2 (contiguous in-bounds windows, in order, covering everything) in
-full, for every input on which the code returns chunks. T3 (exact overlap) is **false** for the
-final remainder window (`c29_T3_false`) and is proved for all other consecutive pairs
-(`c29_T3_consecutive_partial`). Where the window is not larger than the overlap the code panics
+full, for every input on which the code returns chunks. T3 (exact overlap) is decided completely:
+`c29_T3_exact_iff` — it holds iff there is no remainder window, or no overlap was requested, or
+there is a single window; otherwise it is **false** exactly at the final remainder window
+(`c29_T3_false`, `c29_T3_consecutive_partial`), which overlaps its predecessor by 0 tokens. Where the window is not larger than the overlap the code panics
 (`c29_overlap_ge_window_panics`), where the limit leaves no room it returns no chunk
 (`c29_no_room_unsatisfiable` shows nothing else could respect the limit).
 -/
@@ -150,6 +151,55 @@ theorem c29_T3_exact_when_no_remainder (n size overlap : Nat)
       omega
     · omega
 
+/-- **C29.T3 decided.** For a legal request (`overlap < size`) the exact-overlap clause holds
+**iff** there is no remainder window, or no overlap was requested, or everything fits in a single
+window. In all other cases it fails, and it fails only at the final remainder window
+(`c29_T3_consecutive_partial`). -/
+theorem c29_T3_exact_iff (n size overlap : Nat) (hlt : overlap < size) :
+    ExactOverlap n size overlap ↔
+      (remSize n size (size - overlap) = 0 ∨ overlap = 0 ∨ n < size) := by
+  constructor
+  · intro hex
+    by_cases h0 : remSize n size (size - overlap) = 0
+    · exact Or.inl h0
+    · by_cases ho : overlap = 0
+      · exact Or.inr (Or.inl ho)
+      · by_cases hn : n < size
+        · exact Or.inr (Or.inr hn)
+        · exfalso
+          have hp : 0 < remSize n size (size - overlap) := Nat.pos_of_ne_zero h0
+          obtain ⟨rs, hrs⟩ : ∃ rs, chunkRanges n size overlap = some rs := ⟨_, chunkRanges_eq hlt⟩
+          have hfc : fullCount n size (size - overlap) = (n - size) / (size - overlap) + 1 := by
+            simp [fullCount, hn]
+          have e1 := ranges_full_get hlt hrs (i := (n - size) / (size - overlap)) (by omega)
+          have e2 := ranges_rem_get hlt hrs hp
+          rw [hfc] at e2
+          have hx := hex rs hrs _ _ _ e1 e2
+          rcases c29_T3_consecutive_partial n size overlap rs hrs _ _ _ e1 e2 with ⟨hc, _, _⟩ | ⟨_, hc, _⟩
+          · omega
+          · omega
+  · rintro (h | h | h)
+    · exact c29_T3_exact_when_no_remainder n size overlap (Or.inl h)
+    · exact c29_T3_exact_when_no_remainder n size overlap (Or.inr h)
+    · intro rs hrs i r r' _ hr'
+      have hlen := ranges_length hlt hrs
+      have hfc : fullCount n size (size - overlap) = 0 := by simp [fullCount, h]
+      have : i + 1 < rs.length := by
+        rcases Nat.lt_or_ge (i + 1) rs.length with h1 | h1
+        · exact h1
+        · rw [List.getElem?_eq_none h1] at hr'; cases hr'
+      rw [hfc] at hlen
+      split at hlen <;> omega
+
+/-- Non-vacuity of the three escape cases and of the failing case. -/
+example : ExactOverlap 7 3 1 ∧ ExactOverlap 7 3 0 ∧ ExactOverlap 2 3 1 ∧ ¬ ExactOverlap 8 3 1 := by
+  refine ⟨(c29_T3_exact_iff 7 3 1 (by omega)).mpr (Or.inl (by decide)),
+    (c29_T3_exact_iff 7 3 0 (by omega)).mpr (Or.inr (Or.inl rfl)),
+    (c29_T3_exact_iff 2 3 1 (by omega)).mpr (Or.inr (Or.inr (by omega))), ?_⟩
+  intro h
+  have := (c29_T3_exact_iff 8 3 1 (by omega)).mp h
+  revert this; decide
+
 /-- **Precondition.** `overlap ≥ window` is an `assert!` in `chunks_with_overlap`: a panic, for
 every length (pinned by `test_chunks_overlap_panic`). -/
 theorem c29_overlap_ge_window_panics (n size overlap : Nat) (h : size ≤ overlap) :
@@ -157,12 +207,6 @@ theorem c29_overlap_ge_window_panics (n size overlap : Nat) (h : size ≤ overla
   chunkRanges_none h
 
 /-! ## `encode_chunks` -/
-
-theorem mem_zipIdx_map {α β : Type} {f : α × Nat → β} {l : List α} {y : β}
-    (h : y ∈ l.zipIdx.map f) : ∃ x idx, x ∈ l ∧ y = f (x, idx) := by
-  simp only [List.mem_map] at h
-  obtain ⟨⟨x, idx⟩, hm, rfl⟩ := h
-  exact ⟨x, idx, (List.mem_zipIdx hm).2.2 ▸ List.getElem_mem _, rfl⟩
 
 theorem slice_length_le {α : Type} (xs : List α) (r : Nat × Nat) : (slice xs r).length ≤ r.2 := by
   simp only [slice, List.length_take]; omega
@@ -184,7 +228,7 @@ theorem c29_T1_limit_single (cls sep : Option Nat) (L overlap : Nat) (toks offs 
   · simp only [h0, if_true, Option.some.injEq] at h; subst h; simp at hc
   · simp only [h0, if_false, Option.map_eq_some_iff] at h
     obtain ⟨rs, hrs, rfl⟩ := h
-    obtain ⟨r, idx, hr, rfl⟩ := mem_zipIdx_map hc
+    obtain ⟨r, hr, rfl⟩ := List.mem_map.mp hc
     have hb := c29_T2_windows_in_bounds _ _ _ rs hrs r hr
     have hsl := slice_length_le toks r
     simp only [maxTokens, Option.getD_some] at hm
@@ -208,7 +252,7 @@ theorem c29_T1_limit_pair (cls sep : Option Nat) (L overlap : Nat)
     · simp only [h1, if_true, Option.some.injEq] at h; subst h; simp at hc
     · simp only [h1, if_false, Option.map_eq_some_iff] at h
       obtain ⟨rs, hrs, rfl⟩ := h
-      obtain ⟨r, idx, hr, rfl⟩ := mem_zipIdx_map hc
+      obtain ⟨r, hr, rfl⟩ := List.mem_map.mp hc
       have hb := c29_T2_windows_in_bounds _ _ _ rs hrs r hr
       have hsl := slice_length_le toks2 r
       simp only [maxTokens, Option.getD_some] at hm
@@ -231,11 +275,7 @@ theorem c29_T2_content_single (cls sep : Option Nat) (limit : Option Nat) (overl
   obtain ⟨rs, hrs, rfl⟩ := h
   refine ⟨rs, hrs, ?_⟩
   rw [List.map_map]
-  have : ((fun c : Chunk => c.ids) ∘ mkSingle cls sep toks offs textLen
-      (maxTokens limit toks.length (optLen cls + optLen sep)))
-      = (fun r => cls.toList ++ slice toks r ++ sep.toList) ∘ Prod.fst := by
-    funext p; rfl
-  rw [this, ← List.map_map, List.zipIdx_map_fst]
+  rfl
 
 /-- **C29.T2 (pair)** Every chunk is `[CLS]? ++ prefix of the first sequence ++ [SEP]? ++ window of
 the second sequence ++ [SEP]?`, the windows being those of `chunkRanges` over the second
@@ -263,12 +303,7 @@ theorem c29_T2_content_pair (cls sep : Option Nat) (limit : Option Nat) (overlap
       obtain ⟨rs, hrs, rfl⟩ := h
       refine ⟨maxTok, _, _, rs, rfl, rfl, rfl, hrs, ?_⟩
       rw [List.map_map]
-      have : ((fun c : Chunk => c.ids) ∘ mkPair cls sep toks1 offs1 toks2 offs2 len1 len2
-          (min toks1.length maxTok) (min toks2.length (maxTok - min toks1.length maxTok)))
-          = (fun r => cls.toList ++ toks1.take (min toks1.length maxTok) ++ sep.toList ++
-              slice toks2 r ++ sep.toList) ∘ Prod.fst := by
-        funext p; rfl
-      rw [this, ← List.map_map, List.zipIdx_map_fst]
+      rfl
 
 /-- After the `fix:` commit a single text that fits into one chunk never panics, whatever the
 overlap (before it, `overlap ≥ len` hit the assert, e.g. one token with `overlap = 1`). -/
@@ -317,6 +352,73 @@ theorem c29_no_room_empty (cls sep : Option Nat) (L overlap : Nat) (toks offs : 
   have : maxTokens (some L) toks.length (optLen cls + optLen sep) = 0 := by
     simp only [maxTokens, Option.getD_some]; omega
   simp [this]
+
+/-! ## S4 — token offsets of a chunk (secondary: not in the property text) -/
+
+/-- **C29.S4** The last offset of a single-text chunk built from window `r` is the offset of the
+first token after the window, or the text length for the last window — also with overlap
+(before the `fix:` commit 7ff89d8 it was looked up at `chunk_idx * max_tokens + len`). -/
+theorem c29_S4_final_offset_single (cls sep : Option Nat) (toks offs : List Nat) (textLen : Nat)
+    (r : Nat × Nat) (hlen : offs.length = toks.length) (hb : r.1 + r.2 ≤ toks.length) :
+    (mkSingle cls sep toks offs textLen r).offsets.getLast? = some (offs.getD (r.1 + r.2) textLen) := by
+  have : (slice offs r).length = r.2 := by
+    simp only [slice, List.length_take, List.length_drop]; omega
+  simp [mkSingle, this]
+
+/-- The content offsets of a chunk are the window's slice of the offsets. -/
+theorem c29_S4_content_offsets_single (sep : Option Nat) (toks offs : List Nat) (textLen : Nat)
+    (r : Nat × Nat) :
+    (mkSingle none sep toks offs textLen r).offsets = slice offs r ++ [offs.getD (r.1 + (slice offs r).length) textLen] := by
+  simp [mkSingle]
+
+/-- Witness of the fixed offset defect: 5 tokens at offsets 0,3,6,9,12 (text length 14), limit 5
+with CLS+SEP (window 3), overlap 2: the second chunk holds tokens 1..4 and its final offset is 12,
+the offset of token 4 (the old `1*3 + 3 = 6 ≥ 5` lookup fell back to the text length 14). -/
+example : (encodeSingle (some 0) (some 1) (some 5) 2 [3, 4, 5, 6, 7] [0, 3, 6, 9, 12] 14).map
+    (fun cs => cs.map (·.offsets)) = some [[0, 0, 3, 6, 9], [3, 3, 6, 9, 12], [6, 6, 9, 12, 14]] := by
+  decide
+
+/-! ## The public entry points -/
+
+/-- An unknown `[CLS]`/`[SEP]` string is an error of `encode_chunks` and `encode` (never a panic,
+never silently dropped), whatever the input and options; `[CLS]` is reported first. -/
+theorem c29_unknown_special_is_error (cls sep : Special) (limit : Option Nat) (overlap : Nat)
+    (inp : Input) (h : cls = .unknown ∨ sep = .unknown) :
+    encodeChunks cls sep limit overlap inp = .error .tokenIdNotFound ∧
+    encode cls sep limit overlap inp = .error .tokenIdNotFound := by
+  rcases h with rfl | rfl
+  · exact ⟨rfl, rfl⟩
+  · cases cls <;> exact ⟨rfl, rfl⟩
+
+/-- With resolvable special tokens `encode_chunks` is `encode_single` / `encode_pair`. -/
+theorem c29_encodeChunks_ok (cls sep : Special) (c s : Option Nat) (limit : Option Nat)
+    (overlap : Nat) (inp : Input) (hc : cls.resolve = .ok c) (hs : sep.resolve = .ok s) :
+    encodeChunks cls sep limit overlap inp = .ok (match inp with
+      | .item toks offs len => encodeSingle c s limit overlap toks offs len
+      | .pair t1 o1 t2 o2 l1 l2 => encodePair c s limit overlap t1 o1 t2 o2 l1 l2) := by
+  unfold encodeChunks
+  rw [hc, hs]
+  cases inp <;> rfl
+
+/-- **`Tokenizer::encode` truncates to the first chunk**: its result is the head of
+`encode_chunks`, hence respects the limit whenever a chunk exists (single text shown). -/
+theorem c29_encode_limit_single (cls sep : Special) (c s : Option Nat) (L overlap : Nat)
+    (toks offs : List Nat) (len : Nat) (ch : Chunk) (rest : List Chunk)
+    (hc : cls.resolve = .ok c) (hs : sep.resolve = .ok s)
+    (h : encodeSingle c s (some L) overlap toks offs len = some (ch :: rest)) :
+    encode cls sep (some L) overlap (.item toks offs len) = .ok (some ch) ∧ ch.ids.length ≤ L := by
+  refine ⟨?_, c29_T1_limit_single c s L overlap toks offs len _ h ch (by simp)⟩
+  unfold encode
+  rw [c29_encodeChunks_ok cls sep c s _ _ _ hc hs, hc, hs]
+  simp only [h]
+  rfl
+
+/-- The fabricated chunk of `encode` (no chunk from `encode_chunks`) consists of the special tokens
+only; it is longer than a limit below the overhead (limit 1, CLS+SEP: 2 tokens) — `encode` always
+returns one `Encoded`, so "≤ limit" is not obtainable there. -/
+theorem c29_encode_fallback_exceeds_small_limit :
+    encode (.tok 0) (.tok 1) (some 1) 0 (.item [3, 4] [0, 3] 5) =
+      .ok (some { ids := [0, 1], offsets := [0, 0], firstSeq := 2 }) := by rfl
 
 /-- **Pair with an empty second text**: no chunk is produced although there is room — the
 first sequence's tokens appear in no chunk (open finding `C29-pair-empty-second`). -/
